@@ -1,1 +1,8 @@
-//! Shared models (CmdSpec etc.)
+//! Shared models: command specification, generators, observation.
+
+pub mod argv;
+pub mod gen;
+pub mod observe;
+pub mod spec;
+
+pub use spec::*;
